@@ -124,12 +124,17 @@ CHECKS = {
              'histories, GC trigger at 600 and 1: tree equals fresh parse of current content',
              'that try_to_save_module establishes the representation invariants is not proved (memory: known finding read-then-stat '
              'race; disk: DISK-INV assumed)'),
-    'C17': C('4 C17', 'exception-effect (raises) inclusion over the call graph with trusted primitive raise sets; VC of the disk load; '
+    'C17': C('4 C17', 'VCs of the disk load, the save and the cache maintenance over a ghost file system (file contents as a ghost heap array, '
+             'access times, a clock), discharged by z3; exception-effect (raises) inclusion over the call graph with trusted primitive raise sets; '
              'corruption and fault enumeration (bounded)',
-             'D: nothing escapes _load_from_file_system / try_to_save_module, only the source stat error escapes load_module; VC: '
-             '_load_from_file_system returns None or a checked item whatever the primitives raise or return; '
-             'B: every truncation offset, 9 corruptions, 288 fault injections',
-             'atomic replace / two-process interleavings not modelled'),
+             'D: nothing escapes _load_from_file_system / try_to_save_module, only the source stat error escapes load_module; '
+             '_load_from_file_system returns None or a checked item whatever the primitives raise or return; _save_to_file_system: a save that '
+             'returns normally has written the item to the entry\'s file, whatever was there, and no other file changed (the repair clause); '
+             'clear_inactive_cache hands os.remove only files not accessed for the survival time (or the caller\'s threshold) at a clock reading of '
+             'the call; _touch opens in append mode only; _remove_cache_and_update_lock touches only the lock path and runs the clean-up with the '
+             'default threshold; B: every truncation offset, 9 corruptions, 288 fault injections, on-disk repair after every corruption',
+             'the os / pathlib / pickle / time primitives are assumed contracts (ext:...; listed in the evidence); floats of time and stat are '
+             'mathematical numbers; atomic replace / two-process interleavings not modelled'),
     'C18': C('4 C18', 'frame (modifies) obligations over the call graph of parse/iter_errors/tokenize; run-time frame monitor (bounded)',
              'D: no reachable function writes a shared object, module global, class attribute or mutable default except two '
              'write-once memo tables; no ambient reads; B: deep fingerprint of shared state, repeat/history independence, '
